@@ -365,10 +365,31 @@ def rat_write(ex, st, frame, ins, v, t):
     bi_write(ex, st, frame, ins, v, t, 'Real')
 
 
+def fraction(ex, st, n, d):
+    """the rational n/d.  Exact for literal operands; otherwise an uninterpreted value with the linear
+    facts the proofs use (division by a symbolic denominator makes every query nonlinear)"""
+    ns, ds = z3.simplify(n), z3.simplify(d)
+    if z3.is_int_value(ns) and z3.is_int_value(ds) and ds.as_long() != 0:
+        return z3.RealVal(ns.as_long()) / z3.RealVal(ds.as_long())
+    m = ex.m
+    f = m.uf('fraction', m.Int, m.Int, m.Real)
+    q = f(n, d)
+    st.assume(z3.Implies(z3.And(n >= 0, d > 0), q >= 0))
+    st.assume(z3.Implies(z3.And(n <= 0, d > 0), q <= 0))
+    st.assume(z3.Implies(n == 0, q == 0))
+    st.assume(z3.Implies(n == d, q == 1))
+    st.assume(z3.Implies(d == 1, q == z3.ToReal(n)))
+    st.assume(z3.Implies(z3.And(d > 0, n <= d), q <= 1))
+    st.assume(z3.Implies(z3.And(d > 0, n > d), q > 1))
+    st.assume(z3.Implies(z3.And(d > 0, n < d), q < 1))
+    ex.trusted.add('fraction(n, d): symbolic quotients are uninterpreted with sign/order facts (exact for literals)')
+    return q
+
+
 def big_NewRat(ex, st, frame, ins, args):
     a, b = args[0].leaves[0], args[1].leaves[0]
     ex.safety(st, frame, 'libpre', ins, b != 0, 'big.NewRat: zero denominator')
-    return new_big(ex, st, frame, BIGRAT, z3.ToReal(a) / z3.ToReal(b))
+    return new_big(ex, st, frame, BIGRAT, fraction(ex, st, a, b))
 
 
 def big_Rat_SetFrac(ex, st, frame, ins, args):
@@ -376,7 +397,7 @@ def big_Rat_SetFrac(ex, st, frame, ins, args):
     x = bi_read(ex, st, frame, ins, a)
     y = bi_read(ex, st, frame, ins, b)
     ex.safety(st, frame, 'libpre', ins, y != 0, 'big.Rat.SetFrac: zero denominator')
-    rat_write(ex, st, frame, ins, z, z3.ToReal(x) / z3.ToReal(y))
+    rat_write(ex, st, frame, ins, z, fraction(ex, st, x, y))
     return z
 
 
